@@ -1207,7 +1207,8 @@ struct TemplateCore {
                 ++index;
             }
 
-            StringUtils::EscapeHTMLSpecialChars(*stream_, (content + last_index), (index - last_index));
+            // 'index' can be one past the end when the phrase ends in "{d".
+            StringUtils::EscapeHTMLSpecialChars(*stream_, (content + last_index), (length - last_index));
         } else {
             stream_->Write((content_ + tag.Offset), (tag.EndOffset - tag.Offset));
         }
